@@ -118,9 +118,17 @@ func (a *AuthIp) parseAuthIp() error {
 		return nil
 	}
 
+	listed := make(map[string]struct{}, len(auth.IpList))
 	for _, ip := range auth.IpList {
+		listed[ip] = struct{}{}
 		if !IpMap.Insert(ip, struct{}{}) {
 			logging.Debugf("set ip %s", ip)
+		}
+	}
+	for kv := range IpMap.Iter() {
+		if _, ok := listed[kv.Key.(string)]; !ok {
+			IpMap.Del(kv.Key)
+			logging.Debugf("unset ip %s", kv.Key)
 		}
 	}
 	return nil
